@@ -641,6 +641,49 @@ fn exec_op(ctx: &mut Ctx<'_>, op: &Op) -> Res {
             mm.extend(items);
             Res::Unit
         }
+        (Tgt::Map(m), Op::IterAll(IterKind::Clone)) => {
+            let c: Map = m.clone();
+            let done = sched::now();
+            let mut items = Vec::new();
+            {
+                let g = c.guard();
+                for (k, v) in c.iter(&g) {
+                    match (k.read(), v.read()) {
+                        (Ok((kk, ki)), Ok((vi, _, _))) => items.push(Item { k: kk, kinst: ki, vid: vi, clock: done }),
+                        (a, b) => ctx.errors.push(format!("t{} clone() holds an invalid entry: {:?} {:?}", ctx.thread, a.err(), b.err())),
+                    }
+                }
+                if c.len() != items.len() {
+                    ctx.errors.push(format!("t{} clone(): len() = {} but iteration yields {} entries", ctx.thread, c.len(), items.len()));
+                }
+                for it in &items {
+                    if c.get(&KeyQ(it.k), &g).is_none() {
+                        ctx.errors.push(format!("t{} clone(): key {} is iterated but lookup in the clone fails", ctx.thread, it.k));
+                    }
+                }
+            }
+            drop(c);
+            Res::Items { items, done: true }
+        }
+        (Tgt::Set(s), Op::IterAll(IterKind::Clone)) => {
+            let c: Set = s.clone();
+            let done = sched::now();
+            let mut items = Vec::new();
+            {
+                let g = c.guard();
+                for k in c.iter(&g) {
+                    match k.read() {
+                        Ok((kk, ki)) => items.push(Item { k: kk, kinst: ki, vid: 0, clock: done }),
+                        Err(e) => ctx.errors.push(format!("t{} set clone() holds an invalid element: {}", ctx.thread, e)),
+                    }
+                }
+                if c.len() != items.len() {
+                    ctx.errors.push(format!("t{} set clone(): len() = {} but iteration yields {} elements", ctx.thread, c.len(), items.len()));
+                }
+            }
+            drop(c);
+            Res::Items { items, done: true }
+        }
         (Tgt::Map(m), Op::IterAll(kind)) => with_guard(ctx, |ctx, g| {
             let mut items = Vec::new();
             match kind {
@@ -666,6 +709,7 @@ fn exec_op(ctx: &mut Ctx<'_>, op: &Op) -> Res {
                         items.push(Item { k: NONE, kinst: NONE, vid: vi, clock: sched::now() });
                     }
                 }
+                IterKind::Clone => unreachable!("handled above"),
             }
             Res::Items { items, done: true }
         }),
@@ -674,7 +718,7 @@ fn exec_op(ctx: &mut Ctx<'_>, op: &Op) -> Res {
             let g: &'static Guard<'static> = unsafe { &*(ctx.guard.as_ref().unwrap() as *const Guard<'_> as *const Guard<'static>) };
             let m: &'static Map = unsafe { &*(m as *const Map) };
             ctx.iter = Some(match kind {
-                IterKind::Iter => AnyIter::Iter(m.iter(g)),
+                IterKind::Iter | IterKind::Clone => AnyIter::Iter(m.iter(g)),
                 IterKind::Keys => AnyIter::Keys(m.keys(g)),
                 IterKind::Values => AnyIter::Values(m.values(g)),
             });
